@@ -427,13 +427,15 @@ func genVecForm(rt *rapid.T, n int, label string) []int {
 	return []int{1, n}
 }
 
-var c09Layouts = []string{"contig", "lazyT", "sliced", "stepsliced", "materialized"}
+var c09Layouts = []string{"contig", "lazyT", "sliced", "stepsliced", "materialized", "physT"}
 
 func c09Values(rt *rapid.T, shape []int, lk string, label string) Opnd {
 	return genOpnd(rt, shape, lk, -3, 4, 0, label)
 }
 
 func genC09(rt *rapid.T, op string, d DT, mode string, layouts []string) *C09Case {
+	cplxCodes = d.IsComplex()
+	defer func() { cplxCodes = false }()
 	c := &C09Case{Op: op, DT: d.Name, Mode: mode, Via: rapid.SampledFrom([]string{"method", "pkg"}).Draw(rt, "via")}
 	la := rapid.SampledFrom(layouts).Draw(rt, "la")
 	lb := rapid.SampledFrom(layouts).Draw(rt, "lb")
